@@ -70,3 +70,124 @@ mod verif_witness_c17_bind {
         println!("VERIF-BOUNDED test=binding_replaces_exactly_the_bound_parameters_at_every_depth_and_keeps_everything_else evaluations={runs} bound={runs} pseudo-random types of depth <= 3 over all ten kinds x bindings of up to 4 names (values may mention bound names)");
     }
 }
+
+// ---- the LAWS of the statement, bounded (property-based over the public API; never counted as proved) ----------------------
+#[cfg(test)]
+mod verif_witness_c17_laws {
+    use super::*;
+    use crate::{Array, FunctionPointer, FunctionPointerInput, Generic, RawPointer, ScalarPrimitive, Slice, Tuple, Lifetime, TypeReference, PathType, GenericArgument, GenericLifetimeParameter};
+    struct Rng(u64);
+    impl Rng { fn next(&mut self) -> u64 { self.0 ^= self.0 << 13; self.0 ^= self.0 >> 7; self.0 ^= self.0 << 17; self.0 } fn below(&mut self, n: usize) -> usize { (self.next() % n as u64) as usize } }
+    const NAMES: [&str; 3] = ["T", "U", "V"];
+
+    fn gen_type(rng: &mut Rng, depth: usize, generics: bool) -> Type {
+        let k = if depth == 0 { rng.below(2) } else { rng.below(9) };
+        match k {
+            0 => Type::ScalarPrimitive(if rng.below(2) == 0 { ScalarPrimitive::U8 } else { ScalarPrimitive::Bool }),
+            1 => if generics { Type::Generic(Generic { name: NAMES[rng.below(NAMES.len())].to_string() }) } else { Type::ScalarPrimitive(ScalarPrimitive::U16) },
+            2 => Type::Reference(TypeReference { is_mutable: rng.below(2) == 0, lifetime: if rng.below(3) == 0 { Lifetime::Static } else { Lifetime::Elided }, inner: Box::new(gen_type(rng, depth - 1, generics)) }),
+            3 => Type::Tuple(Tuple { elements: (0..rng.below(3)).map(|_| gen_type(rng, depth - 1, generics)).collect() }),
+            4 => Type::Slice(Slice { element_type: Box::new(gen_type(rng, depth - 1, generics)) }),
+            5 => Type::Array(Array { element_type: Box::new(gen_type(rng, depth - 1, generics)), len: rng.below(3) }),
+            6 => Type::RawPointer(RawPointer { is_mutable: rng.below(2) == 0, inner: Box::new(gen_type(rng, depth - 1, generics)) }),
+            _ => Type::Path(PathType { package_id: guppy::PackageId::new("verif 0.1.0"), rustdoc_id: None, base_type: vec!["verif".into(), format!("S{}", rng.below(2))],
+                    generic_arguments: (0..rng.below(3)).map(|_| GenericArgument::TypeParameter(gen_type(rng, depth - 1, generics))).collect() }),
+        }
+    }
+    /// a copy of `t` in which ONE reference (the `which`-th, in pre-order) has its mutability flipped; None if there are fewer
+    fn flip_one_reference(t: &Type, which: &mut isize) -> Type {
+        match t {
+            Type::Reference(r) => {
+                let here = *which == 0; *which -= 1;
+                Type::Reference(TypeReference { is_mutable: if here { !r.is_mutable } else { r.is_mutable }, lifetime: r.lifetime.clone(), inner: Box::new(flip_one_reference(&r.inner, which)) })
+            }
+            Type::Tuple(x) => Type::Tuple(Tuple { elements: x.elements.iter().map(|e| flip_one_reference(e, which)).collect() }),
+            Type::Slice(s) => Type::Slice(Slice { element_type: Box::new(flip_one_reference(&s.element_type, which)) }),
+            Type::Array(a) => Type::Array(Array { element_type: Box::new(flip_one_reference(&a.element_type, which)), len: a.len }),
+            Type::RawPointer(p) => Type::RawPointer(RawPointer { is_mutable: p.is_mutable, inner: Box::new(flip_one_reference(&p.inner, which)) }),
+            Type::Path(p) => Type::Path(PathType { package_id: p.package_id.clone(), rustdoc_id: p.rustdoc_id, base_type: p.base_type.clone(),
+                generic_arguments: p.generic_arguments.iter().map(|g| match g { GenericArgument::TypeParameter(x) => GenericArgument::TypeParameter(flip_one_reference(x, which)), o => o.clone() }).collect() }),
+            other => other.clone(),
+        }
+    }
+    fn rename(t: &Type, f: &dyn Fn(&str) -> String) -> Type {
+        match t {
+            Type::Generic(g) => Type::Generic(Generic { name: f(&g.name) }),
+            Type::Reference(r) => Type::Reference(TypeReference { is_mutable: r.is_mutable, lifetime: r.lifetime.clone(), inner: Box::new(rename(&r.inner, f)) }),
+            Type::Tuple(x) => Type::Tuple(Tuple { elements: x.elements.iter().map(|e| rename(e, f)).collect() }),
+            Type::Slice(s) => Type::Slice(Slice { element_type: Box::new(rename(&s.element_type, f)) }),
+            Type::Array(a) => Type::Array(Array { element_type: Box::new(rename(&a.element_type, f)), len: a.len }),
+            Type::RawPointer(p) => Type::RawPointer(RawPointer { is_mutable: p.is_mutable, inner: Box::new(rename(&p.inner, f)) }),
+            Type::Path(p) => Type::Path(PathType { package_id: p.package_id.clone(), rustdoc_id: p.rustdoc_id, base_type: p.base_type.clone(),
+                generic_arguments: p.generic_arguments.iter().map(|g| match g { GenericArgument::TypeParameter(x) => GenericArgument::TypeParameter(rename(x, f)), o => o.clone() }).collect() }),
+            other => other.clone(),
+        }
+    }
+
+    #[test]
+    fn a_reported_template_binding_rebuilds_the_concrete_type_and_keeps_reference_mutability() {
+        let thorough = std::env::var("VERIF_TIER").map(|t| t == "thorough").unwrap_or(false);
+        let runs = if thorough { 200_000 } else { 20_000 };
+        let mut rng = Rng(0x9E37_79B9_7F4A_7C15);
+        let (mut yes, mut no) = (0, 0);
+        for _ in 0..runs {
+            let template = gen_type(&mut rng, 3, true);
+            let mut b: HashMap<String, Type> = HashMap::new();
+            for name in NAMES { b.insert(name.to_string(), gen_type(&mut rng, 1, false)); }
+            let mut concrete = template.bind_generic_type_parameters(&b);
+            // half of the time the candidate differs from the instance in the mutability of ONE reference
+            if rng.below(2) == 0 { let mut which = rng.below(3) as isize; concrete = flip_one_reference(&concrete, &mut which); }
+            match template.is_a_template_for(&concrete) {
+                Some(found) => {
+                    let rebuilt = template.bind_generic_type_parameters(&found);
+                    if rebuilt != concrete {
+                        println!("VERIF-DEVIATION id=template_for_ignores_reference_mutability `{template:?}` is reported to be a template for `{concrete:?}` with bindings {found:?}, but substituting them yields `{rebuilt:?}`");
+                        assert!(rename_equal_up_to_mutability(&rebuilt, &concrete), "VERIF: the substitution differs from the concrete type in more than reference mutability: {rebuilt:?} vs {concrete:?}");
+                    }
+                    yes += 1;
+                }
+                None => no += 1,
+            }
+        }
+        println!("VERIF-BOUNDED test=a_reported_template_binding_rebuilds_the_concrete_type_and_keeps_reference_mutability evaluations={runs} bound={runs} pseudo-random templates of depth <= 3 x ground bindings; half of the candidates have one reference's mutability flipped ({yes} accepted, {no} rejected)");
+    }
+    fn rename_equal_up_to_mutability(a: &Type, b: &Type) -> bool {
+        fn strip(t: &Type) -> Type { match t {
+            Type::Reference(r) => Type::Reference(TypeReference { is_mutable: false, lifetime: r.lifetime.clone(), inner: Box::new(strip(&r.inner)) }),
+            Type::Tuple(x) => Type::Tuple(Tuple { elements: x.elements.iter().map(strip).collect() }),
+            Type::Slice(s) => Type::Slice(Slice { element_type: Box::new(strip(&s.element_type)) }),
+            Type::Array(a) => Type::Array(Array { element_type: Box::new(strip(&a.element_type)), len: a.len }),
+            Type::RawPointer(p) => Type::RawPointer(RawPointer { is_mutable: p.is_mutable, inner: Box::new(strip(&p.inner)) }),
+            Type::Path(p) => Type::Path(PathType { package_id: p.package_id.clone(), rustdoc_id: p.rustdoc_id, base_type: p.base_type.clone(),
+                generic_arguments: p.generic_arguments.iter().map(|g| match g { GenericArgument::TypeParameter(x) => GenericArgument::TypeParameter(strip(x)), o => o.clone() }).collect() }),
+            other => other.clone() } }
+        strip(a) == strip(b)
+    }
+
+    #[test]
+    fn equivalence_up_to_renaming_is_an_equivalence_and_sees_reference_mutability() {
+        let thorough = std::env::var("VERIF_TIER").map(|t| t == "thorough").unwrap_or(false);
+        let runs = if thorough { 200_000 } else { 20_000 };
+        let mut rng = Rng(0xD1B5_4A32_D192_ED03);
+        for _ in 0..runs {
+            let a = gen_type(&mut rng, 3, true);
+            // reflexive; invariant under a bijective renaming of the generic parameters; symmetric
+            assert!(a.is_equivalent_to(&a).is_some(), "VERIF: not reflexive on {a:?}");
+            let renamed = rename(&a, &|n| match n { "T" => "U".into(), "U" => "V".into(), _ => "T".into() });
+            assert!(a.is_equivalent_to(&renamed).is_some() && renamed.is_equivalent_to(&a).is_some(), "VERIF: {a:?} vs its renaming {renamed:?}");
+            // equal canonical forms <=> equivalent (on these lifetime-poor types); canonicalisation is idempotent
+            let b = gen_type(&mut rng, 2, true);
+            let eq = a.is_equivalent_to(&b).is_some();
+            assert_eq!(eq, b.is_equivalent_to(&a).is_some(), "VERIF: not symmetric on {a:?} / {b:?}");
+            if a.canonicalize() == b.canonicalize() { assert!(eq, "VERIF: equal canonical forms but not equivalent: {a:?} / {b:?}"); }
+            assert!(a.canonicalize().inner().canonicalize() == a.canonicalize(), "VERIF: canonicalisation is not idempotent on {a:?}");
+            // a type and the same type with ONE reference's mutability flipped differ in more than lifetimes and generic names
+            let mut which = rng.below(3) as isize;
+            let flipped = flip_one_reference(&a, &mut which);
+            if flipped != a && a.is_equivalent_to(&flipped).is_some() {
+                println!("VERIF-DEVIATION id=equivalence_ignores_reference_mutability `{a:?}` and `{flipped:?}` are reported equivalent although they differ in the mutability of a reference");
+            }
+        }
+        println!("VERIF-BOUNDED test=equivalence_up_to_renaming_is_an_equivalence_and_sees_reference_mutability evaluations={runs} bound={runs} pseudo-random types of depth <= 3 over 3 generic names: reflexivity, renaming, symmetry, canonical forms, idempotence, one flipped reference");
+    }
+}
